@@ -16,7 +16,7 @@ import (
 	"unsafe"
 )
 
-const MaxClients = 16
+const MaxClients = 64
 
 type Policy int
 
@@ -119,6 +119,7 @@ type state struct {
 	blockedStreak uint64
 	deadlocks     int
 	spawned       int
+	nHarness      int
 	// PCT
 	prio    [MaxClients]int
 	cps     [8]uint64
@@ -373,16 +374,31 @@ func Pass(site int) {
 //
 //go:norace
 func Spawn(body func()) {
-	if !s.active || s.n >= MaxClients {
-		body() // a legal schedule: the child runs to completion first
+	if !s.active {
+		body()
 		return
 	}
-	i := s.n
-	s.n++
+	// reuse the slot of a finished library goroutine (lowest first: deterministic); its
+	// local step counter keeps counting, so (slot, local step) stays unique in a schedule
+	i := -1
+	for k := s.nHarness; k < s.n; k++ {
+		if !s.alive[k] {
+			i = k
+			break
+		}
+	}
+	if i < 0 {
+		if s.n >= MaxClients {
+			fmt.Fprintf(os.Stderr, "simrt: the code under test keeps more than %d goroutines alive in one run: beyond the simulator's capacity (not a verdict)\n", MaxClients)
+			os.Exit(2)
+		}
+		i = s.n
+		s.n++
+		s.lstep[i] = 0
+	}
 	s.alive[i] = true
 	s.nAlive++
 	s.gates[i].w = 0
-	s.lstep[i] = 0
 	s.opSteps[i] = 0
 	s.lastSite[i] = -1000
 	s.lowPrio--
@@ -511,11 +527,11 @@ func decide(c int, site int32) int {
 	case PolForced:
 		l := s.flist[c]
 		i := s.fidx[c]
-		for i < len(l) && l[i].LStep < s.lstep[c] {
+		for i < len(l) && !l[i].Finish && l[i].LStep < s.lstep[c] {
 			i++
 		}
 		s.fidx[c] = i
-		if i < len(l) && l[i].LStep == s.lstep[c] {
+		if i < len(l) && !l[i].Finish && l[i].LStep == s.lstep[c] {
 			s.fidx[c] = i + 1
 			return l[i].To
 		}
@@ -603,8 +619,16 @@ func finish(c int) {
 	to := -1
 	switch s.cfg.Policy {
 	case PolForced:
-		if t := s.ffin[c]; t >= 0 && t < s.n && s.alive[t] {
-			to = t
+		// the next finish event recorded for this slot (slots of library goroutines are reused)
+		l := s.flist[c]
+		for i := s.fidx[c]; i < len(l); i++ {
+			if l[i].Finish {
+				s.fidx[c] = i + 1
+				if t := l[i].To; t >= 0 && t < s.n && s.alive[t] {
+					to = t
+				}
+				break
+			}
 		}
 	case PolBernoulli, PolSiteBiased:
 		k := int(next64() % uint64(s.nAlive))
@@ -638,7 +662,12 @@ func clientMain(i int, body func()) {
 	s.gates[i].park()
 	defer func() {
 		if r := recover(); r != nil {
-			setPanic(i, fmt.Sprint(r))
+			if _, stuck := r.(StepCapExceeded); stuck && i >= s.nHarness {
+				// a goroutine started by the library that can never proceed: it just ends;
+				// whoever waits for it ends in StepCapExceeded too and is judged there
+			} else {
+				setPanic(i, fmt.Sprint(r))
+			}
 		}
 		raceReleaseMerge(unsafe.Pointer(&s.endSync))
 		finish(i)
@@ -656,6 +685,7 @@ func setup(cfg *Config, n int) {
 	s.cfg = cfg
 	s.rng = cfg.Seed
 	s.n = n
+	s.nHarness = n
 	s.nAlive = n
 	s.step = 0
 	s.since = 0
@@ -706,14 +736,10 @@ func setup(cfg *Config, n int) {
 		}
 	case PolForced:
 		for _, ev := range cfg.Forced {
-			if ev.Client < 0 || ev.Client >= n {
+			if ev.Client < 0 || ev.Client >= MaxClients {
 				continue
 			}
-			if ev.Finish {
-				s.ffin[ev.Client] = ev.To
-			} else {
-				s.flist[ev.Client] = append(s.flist[ev.Client], ev)
-			}
+			s.flist[ev.Client] = append(s.flist[ev.Client], ev)
 		}
 	}
 	first := cfg.First
